@@ -436,7 +436,7 @@ theorem cn_wsDrop {w0 w : World} (c : Nat) (h : Cone w0 w) : Cone w0 (wsDrop w c
   try dsimp only
   split
   · cn_auto
-  · split <;> cn_auto
+  · split <;> (try split) <;> cn_auto
 
 theorem cn_appClose {w0 w : World} (sid : Nat) (discard : Bool) (h : Cone w0 w) : Cone w0 (appClose w sid discard) := by
   unfold appClose
